@@ -56,6 +56,16 @@ UsedObjs(W, S, roots) == {o \in DOMAIN W.objs : W.objs[o].top \in S.alive /\ Use
 \* random-size lists whose size is a solver variable in this call
 UsedSizes(W, S, roots) == {l \in DOMAIN S.sz : W.lists[l].randsz /\ UsedC(W, S, roots, l)}
 
+\* an object is EXPOSED under sizes sz unless it is, or lies below, an element of an object list at a position >= the list's
+\* size (a random-size object list keeps its population; the solved size says how many of them the list shows)
+RECURSIVE Exposed(_, _, _)
+Exposed(W, sz, p) ==
+  IF p = "" THEN TRUE
+  ELSE IF p \in DOMAIN W.objs
+       THEN /\ (W.objs[p].idx < 0 \/ W.objs[p].parent \notin DOMAIN sz \/ W.objs[p].idx < sz[W.objs[p].parent])
+            /\ Exposed(W, sz, W.objs[p].parent)
+       ELSE Exposed(W, sz, W.lists[p].owner)
+
 (* --------------------- active hard constraints of a call --------------- *)
 Ctx(W, S, env, sz, own) == [W |-> W, own |-> own, env |-> env, sz |-> sz, rl |-> S.rl, bind |-> << >>]
 
@@ -64,7 +74,7 @@ EnumOK(W, x, v) == LET en == W.scalars[x].enum IN Len(en) = 0 \/ \E i \in 1..Len
 \* verdict ("T"/"F"/"U") of all hard constraints of the call on candidate values env/sz
 HardAll(W, S, call, env, sz) ==
   LET roots == SeqSet(call.roots)
-      objs  == UsedObjs(W, S, roots)
+      objs  == {o \in UsedObjs(W, S, roots) : Exposed(W, sz, o)}      \* what holds for hidden elements is not stated
       blk   == {<<o, b>> \in UNION {{<<o, b>> : b \in StaticBlockNames(W, W.objs[o].cls)} : o \in objs} :
                    S.cmode[CKey(o, b)]}
       C0    == Ctx(W, S, env, sz, "")
@@ -309,6 +319,8 @@ CallClauses(W, S, ev) ==
       usz   == UsedSizes(W, Sm, roots)
       ok    == ev.exc = "none"
       pre_objs == {o \in UsedObjs(W, S, roots) : HasCb(W, o)}
+      \* callbacks of elements a random-size object list hides after the call are not stated: required for the exposed ones
+      must_objs == {o \in pre_objs : Exposed(W, ev.post.sz, o) /\ Exposed(W, mid.sz, o)}
   IN
   [ roots_alive        |-> \A r \in roots : (r \in DOMAIN W.objs => W.objs[r].top \in S.alive),
     pre_is_spec_state  |-> ev.pre = Proj(S),
@@ -332,15 +344,17 @@ CallClauses(W, S, ev) ==
                                {ElemPath(l, i - 1) : i \in 1..ev.post.sz[l]} \subseteq DOMAIN ev.post.v
                                \/ W.lists[l].isobj,                                                \* C04
     list_views_agree   |-> ok => \A l \in DOMAIN ev.views :                                       \* C04
-                               LET seq == [i \in 1..ev.post.sz[l] |-> ev.post.v[ElemPath(l, i - 1)]] IN
+                               LET seq == IF W.lists[l].isobj THEN [i \in 1..ev.post.sz[l] |-> i - 1]   \* the first sz objects, in order
+                                          ELSE [i \in 1..ev.post.sz[l] |-> ev.post.v[ElemPath(l, i - 1)]] IN
                                /\ ev.views[l].len = ev.post.sz[l] /\ ev.views[l].size = ev.post.sz[l]
                                /\ ev.views[l].index = seq /\ ev.views[l].iter = seq,
+    size_in_population |-> ok => \A l \in usz : W.lists[l].isobj => ev.post.sz[l] <= W.lists[l].n,       \* C04
     pre_once_each      |-> /\ NoDup(CbSeq(ev, "pre"))
                            /\ IF FaultPh(ev) \in {"pre", "body"}
                               THEN CbObjs(ev, "pre") \subseteq pre_objs
-                              ELSE CbObjs(ev, "pre") = pre_objs,                                   \* C17
+                              ELSE must_objs \subseteq CbObjs(ev, "pre") /\ CbObjs(ev, "pre") \subseteq pre_objs,   \* C17
     post_once_each     |-> /\ NoDup(CbSeq(ev, "post")) /\ CbObjs(ev, "post") \subseteq pre_objs
-                           /\ ok => CbObjs(ev, "post") = pre_objs,
+                           /\ ok => must_objs \subseteq CbObjs(ev, "post"),
     post_only_after_ok_solve |-> ((ev.exc = "SolveFailure" /\ FaultPh(ev) # "body") \/ FaultPh(ev) = "pre") => CbSeq(ev, "post") = << >>,
     pre_before_post    |-> \A i, j \in 1..Len(ev.cbs) : (ev.cbs[i].ph = "post" /\ ev.cbs[j].ph = "pre") => j < i,
     post_sees_final    |-> FaultPh(ev) = "none" => \A c \in SeqSet(CbSeq(ev, "post")) : c.seen = ev.post.v,
